@@ -1121,4 +1121,439 @@ theorem specCbs_not_synced (sp : Option AMap) (d : Bool) (n : Note) (hn : n ≠ 
     | take n => simp [specCbs]
     | drop n => simp [specCbs]
 
+/-! ### the mode switch (`drop-handle`, `close-out`, `stop`) -/
+
+def MClientIO.run (c : Cfg) : MClientIO → List (IoOp MOp) → MClientIO × List (List Cb)
+  | s, [] => (s, [])
+  | s, op :: r => ((MClientIO.run c (s.step c op).1 r).1, (s.step c op).2 :: (MClientIO.run c (s.step c op).1 r).2)
+
+def VClientIO.run (c : Cfg) : VClientIO → List (IoOp VOp) → VClientIO × List (List Cb)
+  | s, [] => (s, [])
+  | s, op :: r => ((VClientIO.run c (s.step c op).1 r).1, (s.step c op).2 :: (VClientIO.run c (s.step c op).1 r).2)
+
+def MHostedIO.run (c : Cfg) : MHostedIO → List (IoOp MOp) → MHostedIO × List (List Cb)
+  | s, [] => (s, [])
+  | s, op :: r => ((MHostedIO.run c (s.step c op).1 r).1, (s.step c op).2 :: (MHostedIO.run c (s.step c op).1 r).2)
+
+def VHostedIO.run (c : Cfg) : VHostedIO → List (IoOp VOp) → VHostedIO × List (List Cb)
+  | s, [] => (s, [])
+  | s, op :: r => ((VHostedIO.run c (s.step c op).1 r).1, (s.step c op).2 :: (VHostedIO.run c (s.step c op).1 r).2)
+
+def MOp.isWrite : MOp → Bool
+  | .write _ => true | _ => false
+
+def VOp.isWrite : VOp → Bool
+  | .write _ => true | _ => false
+
+/-- The run in which the handle is never dropped (`d` = "already dropped"): the `drop-handle` ops disappear (as do
+`close-out` / `stop`, which are not in the base alphabet) and so do the local writes after the first `drop-handle` — they
+cannot happen any more. Everything else, in particular every notification, is kept. -/
+def neverDropped {α : Type} (isWrite : α → Bool) : Bool → List (IoOp α) → List α
+  | _, [] => []
+  | _, .dropHandle :: r => neverDropped isWrite true r
+  | d, .op o :: r => if d && isWrite o then neverDropped isWrite d r else o :: neverDropped isWrite d r
+  | d, _ :: r => neverDropped isWrite d r
+
+/-- the outputs of the ops that `neverDropped` keeps -/
+def keptOuts {α : Type} (isWrite : α → Bool) : Bool → List (IoOp α) → List (List Cb) → List (List Cb)
+  | _, .dropHandle :: r, _ :: os => keptOuts isWrite true r os
+  | d, .op o :: r, x :: os => if d && isWrite o then keptOuts isWrite d r os else x :: keptOuts isWrite d r os
+  | d, _ :: r, _ :: os => keptOuts isWrite d r os
+  | _, _, _ => []
+
+/-- the outputs of the ops that `neverDropped` removes -/
+def removedOuts {α : Type} (isWrite : α → Bool) : Bool → List (IoOp α) → List (List Cb) → List (List Cb)
+  | _, .dropHandle :: r, x :: os => x :: removedOuts isWrite true r os
+  | d, .op o :: r, x :: os => if d && isWrite o then x :: removedOuts isWrite d r os else removedOuts isWrite d r os
+  | d, _ :: r, x :: os => x :: removedOuts isWrite d r os
+  | _, _, _ => []
+
+theorem MClient.step_fin (c : Cfg) (s : MClient) (o : MOp) (h : s.fin.isSome = true) : s.step c o = (s, []) := by
+  cases o <;> simp [MClient.step, h]
+
+theorem VClient.step_fin (c : Cfg) (s : VClient) (o : VOp) (h : s.fin.isSome = true) : s.step c o = (s, []) := by
+  cases o <;> simp [VClient.step, h]
+
+/-- the `Mode::Read` loop of the map task does to a notification / decode error / EOF exactly what the read arm of the
+`Mode::ReadWrite` loop does -/
+theorem MClient.stepRO_eq (c : Cfg) (s : MClient) (o : MOp) (hf : s.fin.isSome = false) (hw : o.isWrite = false) :
+    s.stepRO c o = s.step c o := by
+  cases o <;> simp_all [MClient.stepRO, MClient.step, MOp.isWrite]
+
+/-- the same for the value task — for *every* op (a local write changes nothing in either mode) -/
+theorem VClient.stepRO_eq (c : Cfg) (s : VClient) (o : VOp) (hf : s.fin.isSome = false) :
+    s.stepRO c o = s.step c o := by
+  cases o <;> simp_all [VClient.stepRO, VClient.step]
+
+/-- the handle has been dropped ⇒ the task is in `Mode::Read` (or has finished); not dropped ⇒ `Mode::ReadWrite` -/
+def ModeInv (d : Bool) (s : MClientIO) : Prop :=
+  (d = false → s.mode = .readWrite) ∧ (d = true → s.mode = .read ∨ s.core.fin.isSome = true)
+
+theorem mclientIO_run_eq (c : Cfg) (ops : List (IoOp MOp)) (d : Bool) (s : MClientIO) (hinv : ModeInv d s) :
+    (MClientIO.run c s ops).1.core = (MClient.run c s.core (neverDropped MOp.isWrite d ops)).1 ∧
+    keptOuts MOp.isWrite d ops (MClientIO.run c s ops).2 = (MClient.run c s.core (neverDropped MOp.isWrite d ops)).2 ∧
+    (∀ x ∈ removedOuts MOp.isWrite d ops (MClientIO.run c s ops).2, x = []) := by
+  induction ops generalizing d s with
+  | nil => simp [MClientIO.run, MClient.run, neverDropped, keptOuts, removedOuts]
+  | cons op r ih =>
+    cases op with
+    | dropHandle =>
+      have hinv' : ModeInv true (s.step c .dropHandle).1 := by
+        refine ⟨fun h => (by cases h), fun _ => ?_⟩
+        cases hf : s.core.fin.isSome <;> simp [MClientIO.step, hf]
+      have := ih true _ hinv'
+      have hcore : (s.step c .dropHandle).1.core = s.core := by
+        cases hf : s.core.fin.isSome <;> simp [MClientIO.step, hf]
+      have hout : (s.step c .dropHandle).2 = [] := by
+        cases hf : s.core.fin.isSome <;> simp [MClientIO.step, hf]
+      rw [hcore] at this
+      simp only [MClientIO.run, neverDropped, keptOuts, removedOuts, List.mem_cons, hout]
+      refine ⟨this.1, this.2.1, ?_⟩
+      intro x hx
+      rcases hx with hx | hx
+      · exact hx
+      · exact this.2.2 x hx
+    | closeOut =>
+      have h1 : s.step c .closeOut = (s, []) := rfl
+      have := ih d s hinv
+      simp only [MClientIO.run, neverDropped, keptOuts, removedOuts, List.mem_cons, h1]
+      refine ⟨this.1, this.2.1, ?_⟩
+      intro x hx
+      rcases hx with hx | hx
+      · exact hx
+      · exact this.2.2 x hx
+    | stop =>
+      have h1 : s.step c .stop = (s, []) := rfl
+      have := ih d s hinv
+      simp only [MClientIO.run, neverDropped, keptOuts, removedOuts, List.mem_cons, h1]
+      refine ⟨this.1, this.2.1, ?_⟩
+      intro x hx
+      rcases hx with hx | hx
+      · exact hx
+      · exact this.2.2 x hx
+    | op o =>
+      by_cases hskip : (d && o.isWrite) = true
+      · -- a local write after the handle was dropped: nothing happens, and it is not part of the other run
+        have hd : d = true := by cases d <;> simp_all
+        have hw : o.isWrite = true := by cases d <;> simp_all
+        have hstep : s.step c (.op o) = (s, []) := by
+          cases hf : s.core.fin.isSome
+          · have hm : s.mode = .read := by
+              rcases hinv.2 hd with h | h
+              · exact h
+              · rw [hf] at h; cases h
+            cases s with
+            | mk core mode =>
+              simp only at hm hf
+              subst hm
+              cases o <;> simp_all [MClientIO.step, MClient.stepRO, MOp.isWrite]
+          · simp [MClientIO.step, hf]
+        have := ih d s hinv
+        simp only [MClientIO.run, neverDropped, keptOuts, removedOuts, hskip, ↓reduceIte, hstep, List.mem_cons]
+        refine ⟨this.1, this.2.1, ?_⟩
+        intro x hx
+        rcases hx with hx | hx
+        · exact hx
+        · exact this.2.2 x hx
+      · have hcore : (s.step c (.op o)).1.core = (s.core.step c o).1 ∧ (s.step c (.op o)).2 = (s.core.step c o).2 ∧
+            (s.step c (.op o)).1.mode = s.mode := by
+          cases hf : s.core.fin.isSome
+          · cases hm : s.mode
+            · simp [MClientIO.step, hf, hm]
+            · have hd : d = true := by
+                cases d
+                · have := hinv.1 rfl; rw [hm] at this; cases this
+                · rfl
+              have hw : o.isWrite = false := by cases d <;> simp_all
+              simp [MClientIO.step, hf, hm, MClient.stepRO_eq c s.core o hf hw]
+          · simp [MClientIO.step, hf, MClient.step_fin c s.core o hf]
+        have hinv' : ModeInv d (s.step c (.op o)).1 := by
+          refine ⟨fun h => by rw [hcore.2.2]; exact hinv.1 h, fun h => ?_⟩
+          rcases hinv.2 h with hm | hfin
+          · left; rw [hcore.2.2]; exact hm
+          · right; rw [hcore.1, MClient.step_fin c s.core o hfin]; exact hfin
+        have := ih d _ hinv'
+        rw [hcore.1] at this
+        have hs : (d && o.isWrite) = false := by simpa using hskip
+        simp only [MClientIO.run, neverDropped, keptOuts, removedOuts, hs, Bool.false_eq_true, ↓reduceIte, MClient.run,
+          hcore.2.1]
+        exact ⟨this.1, by rw [this.2.1], this.2.2⟩
+
+theorem vclientIO_run_eq (c : Cfg) (ops : List (IoOp VOp)) (d : Bool) (s : VClientIO) :
+    (VClientIO.run c s ops).1.core = (VClient.run c s.core (neverDropped VOp.isWrite d ops)).1 ∧
+    keptOuts VOp.isWrite d ops (VClientIO.run c s ops).2 = (VClient.run c s.core (neverDropped VOp.isWrite d ops)).2 ∧
+    (∀ x ∈ removedOuts VOp.isWrite d ops (VClientIO.run c s ops).2, x = []) := by
+  induction ops generalizing d s with
+  | nil => simp [VClientIO.run, VClient.run, neverDropped, keptOuts, removedOuts]
+  | cons op r ih =>
+    -- every op leaves `core` as `VClient.step` would (identity for the handle-side ops and for local writes)
+    have hcoreop : ∀ o, (s.step c (.op o)).1.core = (s.core.step c o).1 ∧ (s.step c (.op o)).2 = (s.core.step c o).2 := by
+      intro o
+      cases hf : s.core.fin.isSome
+      · cases hm : s.mode
+        · cases o <;> simp [VClientIO.step, hf, hm, VClient.step] <;> split <;> simp
+        · simp [VClientIO.step, hf, hm, VClient.stepRO_eq c s.core o hf]
+      · simp [VClientIO.step, hf, VClient.step_fin c s.core o hf]
+    have hside : ∀ op : IoOp VOp, (∀ o, op ≠ .op o) → (s.step c op).1.core = s.core ∧ (s.step c op).2 = [] := by
+      intro op hne
+      cases op with
+      | op o => exact absurd rfl (hne o)
+      | dropHandle => cases hf : s.core.fin.isSome <;> simp [VClientIO.step, hf]
+      | closeOut => cases hf : s.core.fin.isSome <;> simp [VClientIO.step, hf]
+      | stop => simp [VClientIO.step]
+    cases op with
+    | dropHandle =>
+      obtain ⟨h1, h2⟩ := hside .dropHandle (fun o h => by cases h)
+      have := ih true (s.step c .dropHandle).1
+      rw [h1] at this
+      simp only [VClientIO.run, neverDropped, keptOuts, removedOuts, List.mem_cons, h2]
+      refine ⟨this.1, this.2.1, ?_⟩
+      intro x hx
+      rcases hx with hx | hx
+      · exact hx
+      · exact this.2.2 x hx
+    | closeOut =>
+      obtain ⟨h1, h2⟩ := hside .closeOut (fun o h => by cases h)
+      have := ih d (s.step c .closeOut).1
+      rw [h1] at this
+      simp only [VClientIO.run, neverDropped, keptOuts, removedOuts, List.mem_cons, h2]
+      refine ⟨this.1, this.2.1, ?_⟩
+      intro x hx
+      rcases hx with hx | hx
+      · exact hx
+      · exact this.2.2 x hx
+    | stop =>
+      obtain ⟨h1, h2⟩ := hside .stop (fun o h => by cases h)
+      have := ih d (s.step c .stop).1
+      rw [h1] at this
+      simp only [VClientIO.run, neverDropped, keptOuts, removedOuts, List.mem_cons, h2]
+      refine ⟨this.1, this.2.1, ?_⟩
+      intro x hx
+      rcases hx with hx | hx
+      · exact hx
+      · exact this.2.2 x hx
+    | op o =>
+      obtain ⟨h1, h2⟩ := hcoreop o
+      have := ih d (s.step c (.op o)).1
+      rw [h1] at this
+      by_cases hskip : (d && o.isWrite) = true
+      · have hw : o.isWrite = true := by cases d <;> simp_all
+        have hid : s.core.step c o = (s.core, []) := by
+          cases o <;> simp_all [VOp.isWrite, VClient.step]
+        rw [hid] at this h2
+        simp only [VClientIO.run, neverDropped, keptOuts, removedOuts, hskip, ↓reduceIte, List.mem_cons, h2]
+        refine ⟨this.1, this.2.1, ?_⟩
+        intro x hx
+        rcases hx with hx | hx
+        · exact hx
+        · exact this.2.2 x hx
+      · have hs : (d && o.isWrite) = false := by simpa using hskip
+        simp only [VClientIO.run, neverDropped, keptOuts, removedOuts, hs, Bool.false_eq_true, ↓reduceIte, VClient.run, h2]
+        exact ⟨this.1, by rw [this.2.1], this.2.2⟩
+
+/-! #### dropping the handle at one point of a notification sequence -/
+
+def ionotes (ns : List Note) : List (IoOp MOp) := ns.map fun n => .op (.note n)
+def iovnotes (ns : List VNote) : List (IoOp VOp) := ns.map fun n => .op (.note n)
+
+theorem MClient.run_append (c : Cfg) (a b : List MOp) (s : MClient) :
+    MClient.run c s (a ++ b) =
+      ((MClient.run c (MClient.run c s a).1 b).1, (MClient.run c s a).2 ++ (MClient.run c (MClient.run c s a).1 b).2) := by
+  induction a generalizing s with
+  | nil => simp [MClient.run]
+  | cons o r ih => simp [MClient.run, ih]
+
+theorem VClient.run_append (c : Cfg) (a b : List VOp) (s : VClient) :
+    VClient.run c s (a ++ b) =
+      ((VClient.run c (VClient.run c s a).1 b).1, (VClient.run c s a).2 ++ (VClient.run c (VClient.run c s a).1 b).2) := by
+  induction a generalizing s with
+  | nil => simp [VClient.run]
+  | cons o r ih => simp [VClient.run, ih]
+
+theorem MClientIO.run_append (c : Cfg) (a b : List (IoOp MOp)) (s : MClientIO) :
+    MClientIO.run c s (a ++ b) =
+      ((MClientIO.run c (MClientIO.run c s a).1 b).1,
+        (MClientIO.run c s a).2 ++ (MClientIO.run c (MClientIO.run c s a).1 b).2) := by
+  induction a generalizing s with
+  | nil => simp [MClientIO.run]
+  | cons o r ih => simp [MClientIO.run, ih]
+
+theorem VClientIO.run_append (c : Cfg) (a b : List (IoOp VOp)) (s : VClientIO) :
+    VClientIO.run c s (a ++ b) =
+      ((VClientIO.run c (VClientIO.run c s a).1 b).1,
+        (VClientIO.run c s a).2 ++ (VClientIO.run c (VClientIO.run c s a).1 b).2) := by
+  induction a generalizing s with
+  | nil => simp [VClientIO.run]
+  | cons o r ih => simp [VClientIO.run, ih]
+
+theorem MClient.run_length (c : Cfg) (ops : List MOp) (s : MClient) : (MClient.run c s ops).2.length = ops.length := by
+  induction ops generalizing s with
+  | nil => rfl
+  | cons o r ih => simp [MClient.run, ih]
+
+theorem VClient.run_length (c : Cfg) (ops : List VOp) (s : VClient) : (VClient.run c s ops).2.length = ops.length := by
+  induction ops generalizing s with
+  | nil => rfl
+  | cons o r ih => simp [VClient.run, ih]
+
+/-- a notification is processed in either mode as by the `Mode::ReadWrite` read arm, and the mode does not change -/
+theorem MClientIO.step_note (c : Cfg) (s : MClientIO) (n : Note) :
+    (s.step c (.op (.note n))).1.core = (s.core.step c (.note n)).1 ∧
+    (s.step c (.op (.note n))).2 = (s.core.step c (.note n)).2 ∧
+    (s.step c (.op (.note n))).1.mode = s.mode := by
+  cases hf : s.core.fin.isSome
+  · cases hm : s.mode
+    · simp [MClientIO.step, hf, hm]
+    · simp [MClientIO.step, hf, hm, MClient.stepRO_eq c s.core (.note n) hf rfl]
+  · simp [MClientIO.step, hf, MClient.step_fin c s.core (.note n) hf]
+
+theorem VClientIO.step_note (c : Cfg) (s : VClientIO) (n : VNote) :
+    (s.step c (.op (.note n))).1.core = (s.core.step c (.note n)).1 ∧
+    (s.step c (.op (.note n))).2 = (s.core.step c (.note n)).2 := by
+  cases hf : s.core.fin.isSome
+  · cases hm : s.mode
+    · simp [VClientIO.step, hf, hm]
+    · simp [VClientIO.step, hf, hm, VClient.stepRO_eq c s.core (.note n) hf]
+  · simp [VClientIO.step, hf, VClient.step_fin c s.core (.note n) hf]
+
+theorem mclientIO_run_notes (c : Cfg) (ns : List Note) (s : MClientIO) :
+    (MClientIO.run c s (ionotes ns)).1.core = (MClient.run c s.core (notes ns)).1 ∧
+    (MClientIO.run c s (ionotes ns)).2 = (MClient.run c s.core (notes ns)).2 := by
+  induction ns generalizing s with
+  | nil => simp [ionotes, notes, MClientIO.run, MClient.run]
+  | cons n r ih =>
+    obtain ⟨h1, h2, _⟩ := MClientIO.step_note c s n
+    have := ih (s.step c (.op (.note n))).1
+    rw [h1] at this
+    simp only [ionotes, notes, List.map_cons, MClientIO.run, MClient.run, h2] at this ⊢
+    exact ⟨this.1, by rw [this.2]⟩
+
+theorem vclientIO_run_notes (c : Cfg) (ns : List VNote) (s : VClientIO) :
+    (VClientIO.run c s (iovnotes ns)).1.core = (VClient.run c s.core (vnotes ns)).1 ∧
+    (VClientIO.run c s (iovnotes ns)).2 = (VClient.run c s.core (vnotes ns)).2 := by
+  induction ns generalizing s with
+  | nil => simp [iovnotes, vnotes, VClientIO.run, VClient.run]
+  | cons n r ih =>
+    obtain ⟨h1, h2⟩ := VClientIO.step_note c s n
+    have := ih (s.step c (.op (.note n))).1
+    rw [h1] at this
+    simp only [iovnotes, vnotes, List.map_cons, VClientIO.run, VClient.run, h2] at this ⊢
+    exact ⟨this.1, by rw [this.2]⟩
+
+/-! #### hosted channels -/
+
+theorem mhostedIO_run_eq (c : Cfg) (ops : List (IoOp MOp)) (d : Bool) (s : MHostedIO)
+    (hno : ∀ o ∈ ops, o ≠ .op .reconnect ∧ o ≠ .stop) :
+    (MHostedIO.run c s ops).1.core = (MHosted.run c s.core (neverDropped MOp.isWrite d ops)).1 ∧
+    keptOuts MOp.isWrite d ops (MHostedIO.run c s ops).2 = (MHosted.run c s.core (neverDropped MOp.isWrite d ops)).2 ∧
+    (∀ x ∈ removedOuts MOp.isWrite d ops (MHostedIO.run c s ops).2, x = []) := by
+  induction ops generalizing d s with
+  | nil => simp [MHostedIO.run, MHosted.run, neverDropped, keptOuts, removedOuts]
+  | cons op r ih =>
+    have hno' : ∀ o ∈ r, o ≠ .op .reconnect ∧ o ≠ .stop := fun o ho => hno o (List.mem_cons_of_mem _ ho)
+    have hside : ∀ d' : Bool, (op = .dropHandle ∨ op = .closeOut) → (s.step c op).1.core = s.core ∧ (s.step c op).2 = [] := by
+      intro _ h
+      rcases h with h | h <;> subst h
+      · cases hf : s.core.fin.isSome <;> simp [MHostedIO.step, hf]
+      · simp [MHostedIO.step]
+    cases op with
+    | dropHandle =>
+      obtain ⟨h1, h2⟩ := hside d (Or.inl rfl)
+      have := ih true (s.step c .dropHandle).1 hno'
+      rw [h1] at this
+      simp only [MHostedIO.run, neverDropped, keptOuts, removedOuts, List.mem_cons, h2]
+      refine ⟨this.1, this.2.1, ?_⟩
+      intro x hx
+      rcases hx with hx | hx
+      · exact hx
+      · exact this.2.2 x hx
+    | closeOut =>
+      obtain ⟨h1, h2⟩ := hside d (Or.inr rfl)
+      have := ih d (s.step c .closeOut).1 hno'
+      rw [h1] at this
+      simp only [MHostedIO.run, neverDropped, keptOuts, removedOuts, List.mem_cons, h2]
+      refine ⟨this.1, this.2.1, ?_⟩
+      intro x hx
+      rcases hx with hx | hx
+      · exact hx
+      · exact this.2.2 x hx
+    | stop => exact absurd rfl (hno .stop (List.mem_cons_self ..)).2
+    | op o =>
+      have hne : o ≠ .reconnect := fun h => (hno (.op o) (List.mem_cons_self ..)).1 (by rw [h])
+      have hcore : (s.step c (.op o)).1.core = (s.core.step c o).1 ∧ (s.step c (.op o)).2 = (s.core.step c o).2 := by
+        cases o <;> simp_all [MHostedIO.step]
+      have := ih d (s.step c (.op o)).1 hno'
+      rw [hcore.1] at this
+      by_cases hskip : (d && o.isWrite) = true
+      · have hid : s.core.step c o = (s.core, []) := by
+          cases o <;> simp_all [MOp.isWrite, MHosted.step]
+        rw [hid] at this hcore
+        simp only [MHostedIO.run, neverDropped, keptOuts, removedOuts, hskip, ↓reduceIte, List.mem_cons, hcore.2]
+        refine ⟨this.1, this.2.1, ?_⟩
+        intro x hx
+        rcases hx with hx | hx
+        · exact hx
+        · exact this.2.2 x hx
+      · have hs : (d && o.isWrite) = false := by simpa using hskip
+        simp only [MHostedIO.run, neverDropped, keptOuts, removedOuts, hs, Bool.false_eq_true, ↓reduceIte, MHosted.run,
+          hcore.2]
+        exact ⟨this.1, by rw [this.2.1], this.2.2⟩
+
+theorem vhostedIO_run_eq (c : Cfg) (ops : List (IoOp VOp)) (d : Bool) (s : VHostedIO)
+    (hno : ∀ o ∈ ops, o ≠ .op .reconnect ∧ o ≠ .stop) :
+    (VHostedIO.run c s ops).1.core = (VHosted.run c s.core (neverDropped VOp.isWrite d ops)).1 ∧
+    keptOuts VOp.isWrite d ops (VHostedIO.run c s ops).2 = (VHosted.run c s.core (neverDropped VOp.isWrite d ops)).2 ∧
+    (∀ x ∈ removedOuts VOp.isWrite d ops (VHostedIO.run c s ops).2, x = []) := by
+  induction ops generalizing d s with
+  | nil => simp [VHostedIO.run, VHosted.run, neverDropped, keptOuts, removedOuts]
+  | cons op r ih =>
+    have hno' : ∀ o ∈ r, o ≠ .op .reconnect ∧ o ≠ .stop := fun o ho => hno o (List.mem_cons_of_mem _ ho)
+    have hside : ∀ d' : Bool, (op = .dropHandle ∨ op = .closeOut) → (s.step c op).1.core = s.core ∧ (s.step c op).2 = [] := by
+      intro _ h
+      rcases h with h | h <;> subst h
+      · cases hf : s.core.fin.isSome <;> simp [VHostedIO.step, hf]
+      · simp [VHostedIO.step]
+    cases op with
+    | dropHandle =>
+      obtain ⟨h1, h2⟩ := hside d (Or.inl rfl)
+      have := ih true (s.step c .dropHandle).1 hno'
+      rw [h1] at this
+      simp only [VHostedIO.run, neverDropped, keptOuts, removedOuts, List.mem_cons, h2]
+      refine ⟨this.1, this.2.1, ?_⟩
+      intro x hx
+      rcases hx with hx | hx
+      · exact hx
+      · exact this.2.2 x hx
+    | closeOut =>
+      obtain ⟨h1, h2⟩ := hside d (Or.inr rfl)
+      have := ih d (s.step c .closeOut).1 hno'
+      rw [h1] at this
+      simp only [VHostedIO.run, neverDropped, keptOuts, removedOuts, List.mem_cons, h2]
+      refine ⟨this.1, this.2.1, ?_⟩
+      intro x hx
+      rcases hx with hx | hx
+      · exact hx
+      · exact this.2.2 x hx
+    | stop => exact absurd rfl (hno .stop (List.mem_cons_self ..)).2
+    | op o =>
+      have hne : o ≠ .reconnect := fun h => (hno (.op o) (List.mem_cons_self ..)).1 (by rw [h])
+      have hcore : (s.step c (.op o)).1.core = (s.core.step c o).1 ∧ (s.step c (.op o)).2 = (s.core.step c o).2 := by
+        cases o <;> simp_all [VHostedIO.step]
+      have := ih d (s.step c (.op o)).1 hno'
+      rw [hcore.1] at this
+      by_cases hskip : (d && o.isWrite) = true
+      · have hid : s.core.step c o = (s.core, []) := by
+          cases o <;> simp_all [VOp.isWrite, VHosted.step]
+        rw [hid] at this hcore
+        simp only [VHostedIO.run, neverDropped, keptOuts, removedOuts, hskip, ↓reduceIte, List.mem_cons, hcore.2]
+        refine ⟨this.1, this.2.1, ?_⟩
+        intro x hx
+        rcases hx with hx | hx
+        · exact hx
+        · exact this.2.2 x hx
+      · have hs : (d && o.isWrite) = false := by simpa using hskip
+        simp only [VHostedIO.run, neverDropped, keptOuts, removedOuts, hs, Bool.false_eq_true, ↓reduceIte, VHosted.run,
+          hcore.2]
+        exact ⟨this.1, by rw [this.2.1], this.2.2⟩
+
 end SwimVerif.Dl
